@@ -1,5 +1,491 @@
-//! C10 harness (stub: not implemented yet).
+//! C10 — gossip is authenticated, fresh and never echoed back.
+//!
+//! Drives the real `Service` (engine: `engine.rs`) with random sequences of announcements from several
+//! peers — forged signatures, replayed / older / equal / future timestamps, unknown announcers, the local
+//! node as announcer, several relayers of the same announcement — interleaved with gossip ticks,
+//! subscriptions, (dis)connections and a few announcements of the node itself (they occupy rows of the
+//! same table). Output compared with the Lean model: per op, announcement writes, session disconnects
+//! (misbehaviour / invalid timestamp), gossip-store rows.
+//!
+//! Oracle = the property statement on what the real code did:
+//! * a gossip-store row of another node appears only in the step that delivers exactly that announcement,
+//!   with a valid signature (`stored-unauthenticated`), a timestamp at most one hour ahead
+//!   (`stored-future-timestamp`), non-zero, strictly newer than the stored row of the same (node, kind, repo)
+//!   (`stored-not-newer`), and — inventory/refs — from an announcer whose node announcement was stored
+//!   before (`stored-from-unknown-announcer`); anything else: `stored-without-delivery`;
+//! * a relayed announcement (written while handling a delivery or on a gossip tick) is stored
+//!   (`relayed-not-stored`), is never written to its announcer (`relayed-to-announcer`) nor to a peer that
+//!   delivered it earlier: `echo-to-duplicate-deliverer` when that peer's delivery found the announcement
+//!   already stored (the code's FIXME: such a deliverer is not recorded), `echo-after-prune` when the row the
+//!   peer's delivery created was pruned and re-created in between, `echo-to-recorded-deliverer` otherwise;
+//! * the answer to `Subscribe` never contains announcements of the subscriber (`replayed-to-announcer`).
+//!   Reading fixed: "relayed" = `Service::relay`; the answer to an explicit `Subscribe` request may
+//!   contain what the subscriber once delivered (counted as tag `replay-to-deliverer`).
+
+mod engine;
+
+use engine::*;
+use std::collections::BTreeSet;
+use verif_common::*;
+
+const HOUR: u64 = 3_600_000;
+
+struct Delivery {
+    step: usize,
+    peer: u64,
+    ann: AnnObs,
+    /// the announcement was already stored when this delivery arrived
+    duplicate: bool,
+}
+
+fn obs(a: &AnnSpec) -> AnnObs {
+    AnnObs { node: a.node, kind: a.kind.ch(), repo: a.repo, ts: a.ts }
+}
+
+fn oracle(recs: &[StepRec], tags: &mut Vec<String>) -> Vec<(String, String)> {
+    let mut viol: Vec<(String, String)> = vec![];
+    let mut deliveries: Vec<Delivery> = vec![];
+    let mut node_seen: BTreeSet<u64> = BTreeSet::new(); // announcers whose node announcement was stored
+    let mut prev_rows: Vec<AnnObs> = vec![];
+    // per announcement: steps at which its row vanished
+    let mut vanished: Vec<(AnnObs, usize)> = vec![];
+    let mut relayers_of: std::collections::BTreeMap<AnnObs, BTreeSet<u64>> = Default::default();
+    for (j, r) in recs.iter().enumerate() {
+        let rows_before = prev_rows.clone();
+        // --- store updates
+        let new_rows: Vec<&AnnObs> = r.rows.iter().filter(|x| !rows_before.contains(x)).collect();
+        for x in rows_before.iter().filter(|x| !r.rows.contains(x)) {
+            vanished.push((x.clone(), j));
+        }
+        for x in &new_rows {
+            if x.node == 0 {
+                continue;
+            }
+            match &r.op {
+                Op::Recv(p, a) if obs(a) == **x => {
+                    if !a.sig_ok {
+                        viol.push(("stored-unauthenticated".into(), format!("op {j}: {} stored with a forged signature", x.show())));
+                    }
+                    if a.ts > r.clock_before + HOUR {
+                        viol.push(("stored-future-timestamp".into(), format!("op {j}: {} stored, {} ms ahead of local time", x.show(), a.ts - r.clock_before)));
+                    }
+                    if a.ts == 0 {
+                        viol.push(("stored-zero-timestamp".into(), format!("op {j}: {} stored", x.show())));
+                    }
+                    if let Some(old) = rows_before.iter().find(|o| o.node == x.node && o.kind == x.kind && o.repo == x.repo) {
+                        if old.ts >= x.ts {
+                            viol.push(("stored-not-newer".into(), format!("op {j}: {} replaced {}", x.show(), old.show())));
+                        }
+                    }
+                    if x.kind != 'n' && !node_seen.contains(&x.node) {
+                        viol.push(("stored-from-unknown-announcer".into(), format!("op {j}: {} stored but no node announcement of {} was ever stored", x.show(), x.node)));
+                    }
+                    if !r.sessions.contains(p) {
+                        viol.push(("stored-without-delivery".into(), format!("op {j}: {} stored on delivery from a peer without session", x.show())));
+                    }
+                }
+                _ => viol.push(("stored-without-delivery".into(), format!("op {j}: row {} appeared in a step that does not deliver it", x.show()))),
+            }
+        }
+        // a replaced row must be replaced by a strictly newer one of the same key (covered above); rows
+        // of other nodes must not change otherwise
+        for x in &new_rows {
+            if x.kind == 'n' && x.node != 0 {
+                node_seen.insert(x.node);
+            }
+        }
+        if let Op::KnowNode(n, _) = &r.op {
+            node_seen.insert(*n); // the address book was told about this node (stands for an earlier node announcement)
+        }
+        // --- writes
+        let is_replay = matches!(r.op, Op::Subscribe(..));
+        let is_initial = matches!(r.op, Op::Connect(..));
+        for w in &r.writes {
+            if w.ann.node == 0 {
+                continue;
+            }
+            if is_initial {
+                viol.push(("relayed-not-stored".into(), format!("op {j}: foreign announcement {} written on connect", w.show())));
+                continue;
+            }
+            if w.peer == w.ann.node {
+                let class = if is_replay { "replayed-to-announcer" } else { "relayed-to-announcer" };
+                viol.push((class.into(), format!("op {j}: {} written to its announcer", w.show())));
+            }
+            let stored = r.rows.contains(&w.ann) || rows_before.contains(&w.ann);
+            if !stored {
+                viol.push(("relayed-not-stored".into(), format!("op {j}: {} written but never stored", w.show())));
+            }
+            if is_replay {
+                if deliveries.iter().any(|d| d.peer == w.peer && d.ann == w.ann) {
+                    tags.push("replay-to-deliverer".into());
+                }
+                tags.push("replay".into());
+                continue;
+            }
+            match &r.op {
+                Op::Recv(_, a) => {
+                    tags.push("relay-immediate".into());
+                    if obs(a) != w.ann {
+                        viol.push(("relayed-not-stored".into(), format!("op {j}: {} written while handling the delivery of {}", w.show(), obs(a).show())));
+                    }
+                    if !new_rows.contains(&&w.ann) {
+                        viol.push(("relayed-not-stored".into(), format!("op {j}: {} relayed although this delivery did not store it", w.show())));
+                    }
+                }
+                Op::Elapse(_) => tags.push("relay-on-tick".into()),
+                _ => viol.push(("relayed-not-stored".into(), format!("op {j}: {} written by an op that relays nothing", w.show()))),
+            }
+            // echo?
+            let this_delivery = matches!(&r.op, Op::Recv(p, a) if *p == w.peer && obs(a) == w.ann);
+            if this_delivery {
+                viol.push(("echo-to-recorded-deliverer".into(), format!("op {j}: {} written to the peer delivering it", w.show())));
+            }
+            if let Some(d) = deliveries.iter().find(|d| d.peer == w.peer && d.ann == w.ann) {
+                let pruned = vanished.iter().any(|(x, at)| *x == w.ann && *at > d.step && *at <= j);
+                let class = if d.duplicate {
+                    "echo-to-duplicate-deliverer"
+                } else if pruned {
+                    "echo-after-prune"
+                } else {
+                    "echo-to-recorded-deliverer"
+                };
+                viol.push((class.into(), format!("op {j}: {} relayed to peer {} which delivered it at op {}", w.show(), w.peer, d.step)));
+            }
+        }
+        // --- record this step's delivery
+        if let Op::Recv(p, a) = &r.op {
+            let x = obs(a);
+            let had_session = r.sessions.contains(p);
+            // classification tags
+            let same_key = rows_before.iter().find(|o| o.node == x.node && o.kind == x.kind && o.repo == x.repo);
+            let t = if !had_session {
+                "recv-no-session"
+            } else if !a.sig_ok {
+                "recv-forged"
+            } else if a.node == 0 {
+                "recv-own-announcement"
+            } else if a.ts == 0 {
+                "recv-zero-timestamp"
+            } else if a.ts > r.clock_before + HOUR {
+                "recv-future-rejected"
+            } else if x.kind != 'n' && !node_seen.contains(&x.node) && !new_rows.contains(&&x) {
+                "recv-unknown-announcer"
+            } else if let Some(o) = same_key {
+                if o.ts == x.ts {
+                    "recv-duplicate-equal-ts"
+                } else if o.ts > x.ts {
+                    "recv-older"
+                } else {
+                    "recv-newer-replaces"
+                }
+            } else {
+                "recv-first-of-key"
+            };
+            tags.push(t.into());
+            if had_session && a.sig_ok && a.ts == r.clock_before + HOUR {
+                tags.push("recv-future-boundary-accepted".into());
+            }
+            if had_session && a.sig_ok && a.ts + HOUR == r.clock_before {
+                tags.push("recv-age-boundary-relayed".into());
+            }
+            if had_session && a.sig_ok && a.ts + HOUR + 1 == r.clock_before {
+                tags.push("recv-too-old-to-relay".into());
+            }
+            // a delivery the node refused (invalid timestamp: the deliverer is to be disconnected) is not a
+            // delivery of the announcement in the sense of the property
+            if had_session && a.sig_ok && r.discs.is_empty() {
+                let set = relayers_of.entry(x.clone()).or_default();
+                set.insert(*p);
+                if set.len() >= 2 {
+                    tags.push("several-relayers".into());
+                }
+                if *p == a.node {
+                    tags.push("recv-from-announcer-itself".into());
+                }
+                deliveries.push(Delivery { step: j, peer: *p, ann: x.clone(), duplicate: rows_before.contains(&x) });
+            }
+            if !r.discs.is_empty() {
+                tags.push(format!("disconnect-{}", r.discs[0].1));
+            }
+        }
+        prev_rows = r.rows.clone();
+    }
+    viol.sort();
+    viol.dedup();
+    viol
+}
+
+fn run_case(input: &str) -> Outcome {
+    let Some((_t0, recs)) = run(input) else { return Outcome::new("bad-case").trivial() };
+    let mut o = Outcome::new(show(&recs));
+    let mut tags = vec![];
+    o.violations = oracle(&recs, &mut tags);
+    if recs.iter().any(|r| r.panicked.is_some()) {
+        tags.push("panic".into());
+    }
+    let relayed = recs.iter().any(|r| !matches!(r.op, Op::Connect(..) | Op::Subscribe(..)) && r.writes.iter().any(|w| w.ann.node != 0));
+    let rejected = recs.iter().any(|r| !r.discs.is_empty());
+    let stale = tags.iter().any(|t| t == "recv-duplicate-equal-ts" || t == "recv-older");
+    tags.sort();
+    tags.dedup();
+    o.tags = tags;
+    // non-trivial: something was relayed, and something was refused (rejected or stale)
+    o.nontrivial = relayed && (rejected || stale);
+    o
+}
+
+struct Gen {
+    toks: Vec<String>,
+    clock: u64,
+    connected: Vec<u64>,
+    pool: Vec<AnnSpec>,
+    /// newest timestamp generated per (node, kind, repo)
+    newest: std::collections::BTreeMap<(u64, char, u64), u64>,
+}
+
+impl Gen {
+    fn ann(&mut self, rng: &mut Rng, n_repos: u64, allow_seed: bool) -> AnnSpec {
+        let node = match rng.below(12) {
+            0 => 0,     // the local node as announcer
+            1 => 6,     // never sends a node announcement
+            _ => rng.range(1, 5),
+        };
+        let kind = match rng.below(10) {
+            0..=2 => Kind::Node,
+            3..=6 => Kind::Inv,
+            _ => Kind::Refs,
+        };
+        let repo = if kind == Kind::Refs { rng.below(n_repos.max(1)) } else { 0 };
+        let key = (node, kind.ch(), repo);
+        let last = self.newest.get(&key).cloned();
+        let c = self.clock;
+        let ts = match rng.below(20) {
+            0 => 0,
+            1 => c + HOUR,     // boundary: accepted
+            2 => c + HOUR + 1, // boundary: rejected
+            3 => c + HOUR + rng.range(2, 100_000),
+            4 => c.saturating_sub(HOUR),     // boundary: still relayed
+            5 => c.saturating_sub(HOUR + 1), // boundary: stored, not relayed
+            6 | 7 => last.unwrap_or(c),      // equal to the newest one
+            8 => last.map(|l| l.saturating_sub(rng.range(1, 50))).unwrap_or(c), // older
+            9 => last.map(|l| l + 1).unwrap_or(c + 1), // just newer
+            _ => c.saturating_sub(rng.below(2000)) + rng.below(4000),
+        };
+        let flag = match kind {
+            // a fresh SEED node announcement costs seconds (scrypt proof of work in `NodeAnnouncement::work`)
+            Kind::Node => allow_seed && rng.chance(1, 30),
+            Kind::Refs => !rng.chance(1, 8),
+            Kind::Inv => false,
+        };
+        let inv = if kind == Kind::Inv {
+            let mut v: Vec<u64> = (0..N_RIDS).filter(|_| rng.chance(1, 3)).collect();
+            if rng.chance(1, 10) {
+                v.clear();
+            }
+            v
+        } else {
+            vec![]
+        };
+        let a = AnnSpec { node, kind, repo, ts, sig_ok: !rng.chance(1, 9), inv, flag };
+        if a.sig_ok && ts <= c + HOUR {
+            let e = self.newest.entry(key).or_insert(0);
+            if ts > *e {
+                *e = ts;
+            }
+        }
+        a
+    }
+}
+
+fn gen_case(rng: &mut Rng, max_ops: u64, allow_seed: bool) -> String {
+    let t0: u64 = 1_700_000_000_000 + rng.below(1_000_000);
+    let relay = !rng.chance(1, 8);
+    let mut g = Gen {
+        toks: vec![t0.to_string(), (relay as u8).to_string()],
+        clock: t0,
+        connected: vec![],
+        pool: vec![],
+        newest: Default::default(),
+    };
+    // a few repositories so that refs announcements can be relayed (in storage, public, seeded)
+    let n_repos = rng.range(1, 3);
+    for rid in 0..n_repos {
+        let r = RepoSpec {
+            rid,
+            present: !rng.chance(1, 5),
+            private: rng.chance(1, 5),
+            delegates: vec![0],
+            allow: if rng.bool() { vec![rng.range(1, 3)] } else { vec![] },
+            own: None,
+        };
+        let r = RepoSpec { own: if r.present && rng.bool() { Some((1, 1000)) } else { None }, ..r };
+        g.toks.push(repo_tok(&r));
+        if !rng.chance(1, 5) {
+            g.toks.push(format!("z,{rid}"));
+        }
+    }
+    // peers
+    let n_peers = rng.range(2, 4);
+    for p in 1..=n_peers {
+        if !rng.chance(1, 6) {
+            g.toks.push(format!("c,{p},{}", if rng.bool() { "i" } else { "o" }));
+            g.connected.push(p);
+            if !rng.chance(1, 4) {
+                let filt = if rng.chance(2, 3) { "*".to_string() } else { plus_list(&(0..n_repos).filter(|_| rng.bool()).collect::<Vec<_>>()) };
+                g.toks.push(format!("s,{p},{filt},{},{}", if rng.bool() { 0 } else { g.clock - rng.below(5000) }, I64MAX));
+            }
+        }
+    }
+    // most announcers are known to the address book (as after a SEED node announcement)
+    for x in 1..=5u64 {
+        if !rng.chance(1, 4) {
+            g.toks.push(format!("n,{x},{}", g.clock - rng.below(1000)));
+        }
+    }
+    let n = rng.range(4, max_ops);
+    for _ in 0..n {
+        match rng.below(100) {
+            0..=44 => {
+                let a = g.ann(rng, n_repos, allow_seed);
+                let p = if rng.chance(1, 15) || g.connected.is_empty() { rng.range(1, 4) } else { *rng.pick(&g.connected) };
+                g.toks.push(ann_tok(p, &a));
+                g.pool.push(a);
+            }
+            45..=59 => {
+                // the same announcement again, usually from another peer
+                if !g.pool.is_empty() && !g.connected.is_empty() {
+                    let a = rng.pick(&g.pool).clone();
+                    let p = *rng.pick(&g.connected);
+                    g.toks.push(ann_tok(p, &a));
+                }
+            }
+            60..=77 => {
+                let dt = *rng.pick(&[6000, 6000, 6000, 5999, 1, 0, 30_000, 1_800_000, 3_600_000, 3_600_001, 12_000]);
+                g.clock += dt;
+                g.toks.push(format!("e,{dt}"));
+            }
+            78..=84 => {
+                if !g.connected.is_empty() {
+                    let p = *rng.pick(&g.connected);
+                    let filt = if rng.chance(2, 3) { "*".to_string() } else { plus_list(&(0..n_repos).filter(|_| rng.bool()).collect::<Vec<_>>()) };
+                    let (since, until) = match rng.below(6) {
+                        0 => (g.clock, g.clock + 1),
+                        1 => (g.clock + 10, g.clock), // inverted
+                        2 => (0, u64::MAX),           // cannot be bound to SQLite
+                        3 => (g.clock.saturating_sub(rng.below(10_000)), I64MAX),
+                        _ => (0, I64MAX),
+                    };
+                    g.toks.push(format!("s,{p},{filt},{since},{until}"));
+                }
+            }
+            85..=90 => {
+                let p = rng.range(1, 4);
+                if g.connected.contains(&p) {
+                    g.toks.push(format!("d,{p}"));
+                    g.connected.retain(|x| *x != p);
+                } else {
+                    g.toks.push(format!("c,{p},{}", if rng.bool() { "i" } else { "o" }));
+                    g.connected.push(p);
+                }
+            }
+            91..=93 => g.toks.push(format!("i,{}", rng.below(n_repos))),
+            94..=95 => g.toks.push(format!("r,{}", rng.below(n_repos))),
+            96 => {
+                if rng.bool() {
+                    g.toks.push("R".into())
+                } else {
+                    g.toks.push(format!("n,{},{}", rng.range(1, 6), g.clock.saturating_sub(rng.below(3000)) + rng.below(1500)))
+                }
+            }
+            97 => g.toks.push(format!("{},{}", if rng.bool() { "z" } else { "u" }, rng.below(n_repos))),
+            _ => {
+                let rid = rng.below(n_repos);
+                let r = RepoSpec {
+                    rid,
+                    present: !rng.chance(1, 4),
+                    private: rng.chance(1, 3),
+                    delegates: vec![0],
+                    allow: if rng.bool() { vec![rng.range(1, 3)] } else { vec![] },
+                    own: None,
+                };
+                g.toks.push(repo_tok(&r));
+            }
+        }
+    }
+    // let pending relays go out
+    if rng.chance(3, 4) {
+        g.toks.push("e,6000".into());
+    }
+    g.toks.join(" ")
+}
+
+/// Exhaustive part: every sequence of `len` ops over a small alphabet around one inventory
+/// announcement X of node 3 (two peers, fresh / duplicate / older deliveries, tick).
+fn exhaustive(ctx: &mut Ctx, len: usize) {
+    let t0 = 1_700_000_000_000u64;
+    let alphabet: Vec<String> = vec![
+        format!("a,1,3,i,0,{},1,1", t0 + 10),
+        format!("a,2,3,i,0,{},1,1", t0 + 10),
+        format!("a,2,3,i,0,{},1,1+2", t0 + 20),
+        format!("a,1,3,i,0,{},1,2", t0 + 5),
+        format!("a,1,3,i,0,{},0,1", t0 + 30),
+        format!("a,2,3,n,0,{},1,0", t0 + 10),
+        "e,6000".to_string(),
+        format!("s,1,*,0,{}", I64MAX),
+        "d,2".to_string(),
+    ];
+    let prefix = format!("{t0} 1 c,1,i c,2,o n,3,{}", t0 - 5);
+    let mut idx = vec![0usize; len];
+    loop {
+        let mut toks = vec![prefix.clone()];
+        for i in &idx {
+            toks.push(alphabet[*i].clone());
+        }
+        toks.push("e,6000".into());
+        let input = toks.join(" ");
+        let o = run_case(&input);
+        ctx.count("exhaustive-small-alphabet");
+        ctx.record(&input, o);
+        // next
+        let mut k = 0;
+        loop {
+            if k == len {
+                return;
+            }
+            idx[k] += 1;
+            if idx[k] < alphabet.len() {
+                break;
+            }
+            idx[k] = 0;
+            k += 1;
+        }
+    }
+}
+
 fn main() {
-    eprintln!("C10: harness not implemented");
-    std::process::exit(3);
+    let mut ctx = Ctx::from_args("C10");
+    if !ctx.run_fixed(run_case) {
+        let quick = ctx.quick();
+        exhaustive(&mut ctx, if quick { 2 } else { 4 });
+        let mut rng = ctx.rng();
+        let n = ctx.size(400, 6_000);
+        let max = ctx.size(14, 25);
+        for _ in 0..n {
+            // a few thorough-tier cases contain SEED node announcements (seconds each)
+            let seed = !quick && rng.chance(1, 100);
+            let input = gen_case(&mut rng, max, seed);
+            let o = run_case(&input);
+            ctx.record(&input, o);
+        }
+    }
+    ctx.finish(
+        "random sequences (quick <= 14, thorough <= 25 ops after set-up) of announcements of 6 announcers (one never announced as a node, \
+         plus the local node) delivered by 2-4 peers: forged signatures, timestamps 0 / equal / older / just newer / at and beyond the \
+         +1h limit / at and beyond the 1h relay-age limit, re-deliveries of earlier announcements by other peers, gossip ticks (incl. \
+         5999 ms), subscriptions (inverted and unbindable ranges), (dis)connections, own announcements; plus every sequence of 2 \
+         (thorough: 4) ops over a 9-op alphabet around one inventory announcement and two relayers; non-trivial = something was relayed \
+         and something was refused; distinct by input text",
+        false,
+    );
 }
